@@ -517,8 +517,6 @@ theorem step_inv {sp sp' : Spec} {op : Op} {out : Out} {L : List LogE} (hst : sp
     · cases hst
   | fini =>
     simp only [Spec.step] at hst
-    change (if (Spec.isOk out.ret && Spec.sameSet out.log (sp.liveRegs.map .fin)) = true then
-        some { sp with live := [], fb := none, dflt := 0 } else none) = some sp' at hst
     split at hst
     · rename_i hc
       simp only [Bool.and_eq_true, sameSet_iff] at hc
